@@ -12,6 +12,7 @@ import sys
 import threading
 import time
 import traceback
+import warnings
 
 from . import engine as engine_mod
 from .engine import Engine, Violation, Inconclusive, HarnessError, CUR
@@ -48,6 +49,8 @@ def source_hashes():
 def _worker(args):
     pid, cfg, tier, seed, excl = args
     t0 = time.time()
+    sys.setrecursionlimit(20000)
+    warnings.filterwarnings("ignore")
     res = dict(cfg=cfg, stats={}, violation=None, samples=[], inconclusive=None, error=None,
                path_samples=[], notes={}, vc_dump=[])
     try:
@@ -191,12 +194,32 @@ def run_check(pid, tier, seed):
     errors = []
     work = [(pid, c, tier, seed, excl) for c in cfgs]
     nproc = max(1, min(NPROC, len(work)))
-    ctx = multiprocessing.get_context("fork")
+    # workers come from a fork server, not from this (multi-threaded) process: a worker forked here while
+    # another thread is inside subprocess.Popen inherits the child's error pipe and, never exec'ing, keeps
+    # Popen waiting for as long as the worker lives (observed as a rare deadlock of the whole check)
+    ctx = multiprocessing.get_context("forkserver")
+    ctx.set_forkserver_preload(["symex.driver", "harness." + pid])
     stopped_early = None
     with ctx.Pool(nproc, maxtasksperchild=getattr(H, "TASKS_PER_CHILD", 8)) as pool:
         nviol = 0
         next_probe = FAILFAST_AFTER
-        for r in pool.imap_unordered(_worker, work, chunksize=1):
+        # watchdog: a configuration answers within its own wall budget; a longer silence means a worker was
+        # lost (killed by the kernel, crashed inside the solver) -- a harness error, never a verdict
+        silence = getattr(H, "ENGINE_OPTS", {}).get(tier, {}).get("wall_s", 3600.0) + 900
+        results_it = pool.imap_unordered(_worker, work, chunksize=1)
+        while len(results) < len(work):
+            try:
+                r = results_it.next(timeout=silence)
+            except StopIteration:
+                break
+            except multiprocessing.TimeoutError:
+                print("HARNESS-ERROR: no configuration finished within %d s (%d of %d done): a worker was lost" % (silence, len(results), len(work)))
+                pool.terminate()
+                try:
+                    bt.get().close()
+                except BaseException:
+                    pass
+                return 2
             results.append(r)
             if r["error"]:
                 errors.append(r)
